@@ -6,6 +6,8 @@
 open Model
 open Model.HBallM
 type string = Stdlib.String.t
+let max = Stdlib.max
+let min = Stdlib.min
 open Conv
 
 (* ---- HyperLogLog estimate (card-est-array 0.6.0, LogLog-beta enabled) ---- *)
